@@ -1089,6 +1089,11 @@ func (m *Manager) isValidSignedData(signedData *types.SignedData) bool {
 	if !bytes.Equal(signedData.Signer.Address, m.genesis.ProposerAddress) {
 		return false
 	}
+	// the key the signature is verified with must be the proposer's key, not
+	// merely accompanied by the proposer's address
+	if signedData.Signer.PubKey == nil || !bytes.Equal(types.KeyAddress(signedData.Signer.PubKey), m.genesis.ProposerAddress) {
+		return false
+	}
 	dataBytes, err := signedData.Data.MarshalBinary()
 	if err != nil {
 		return false
